@@ -10,7 +10,7 @@ import gen
 from common import fx, unfx, enc_list, close, rq
 
 REQUIRED = ['ipsw_saturated', 'gtransport_saturated', 'aipsw_outcome_saturated', 'aipsw_weights_balanced',
-            'aipsw_weights_saturated_unstab', 'rd_rr_def', 'target_outcomes_irrelevant']
+            'aipsw_weights_saturated_unstab', 'rd_rr_def', 'target_outcomes_irrelevant', 'aipsw_fit_generated']
 RULE = ('random combined data sets: a study sample (1-2 categorical modifiers, <= 8 strata, both arms and both outcome '
         'values in every stratum) plus a target sample with at least one row per stratum; target rows carry A = NaN, and '
         'Y = NaN or junk values (both variants are run and must agree); cells: IPSW+treatment model, GTransportFormula, '
@@ -110,6 +110,12 @@ def model_k(chk, drv, e, df, covs, g, stab, which, case):
                          ds=enc_list(e.df['__denom__'], fx), tw=enc_list(tw, fx), q1=enc_list(e._YA1, fx),
                          q0=enc_list(e._YA0, fx), **enc(e.df, covs))
         ok = rep['status'] == 'ok'
+        # the definition generated from the text of AIPSW.fit, on the implementation's own arrays
+        rep2, _ = drv.ask('aipswfit', c='f', gen=int(g), hasiptw=int(e.iptw is not None), ipsw=enc_list(e.ipsw, fx),
+                          iptw=enc_list(tw, fx), q1=enc_list(e._YA1, fx), q0=enc_list(e._YA0, fx), **enc(e.df, covs))
+        chk.k(rep2['status'] == 'ok' and close(unfx(rep2['rd']), e.risk_difference, rtol=1e-9, atol=1e-12) and
+              close(unfx(rep2['rr']), e.risk_ratio, rtol=1e-9), 'AIPSW.fit = definition generated from its source',
+              dict(case, model=rep2))
     if ok:
         r1, r0 = unfx(rep['r1']), unfx(rep['r0'])
         ok = close(r1 - r0, e.risk_difference, rtol=1e-9, atol=1e-12) and close(r1 / r0, e.risk_ratio, rtol=1e-9)
